@@ -206,13 +206,30 @@ def body_large(ctx):
     """A grid with more than 2**15 cells whose native indexes arrive as narrow numpy integers (read from a table of
     stations): position n of the flattened variable, polygon n and the selection by index are the same cell."""
     from emsarray.conventions.grid import CFGrid1D
-    ny, nx = 200, 300
+    ny, nx = 257, 258
     vals = numpy.arange(ny * nx, dtype=float).reshape(ny, nx) * 0.5
     ds = pipeline.builders.cf1d(ny, nx, lat=numpy.linspace(-40.0, -10.0, ny), lon=numpy.linspace(110.0, 160.0, nx), data_vars={'temp': (('y', 'x'), vals)})
     cv = CFGrid1D(ds)
     flat = cv.ravel(ds['temp']).values
     k = int(ctx.int('station', 0, 5))
-    j, i = [(0, 0), (109, 67), (110, 7), (150, 299), (199, 0), (199, 299)][k]
+    j, i = [(0, 0), (109, 67), (110, 7), (150, 257), (256, 0), (256, 257)][k]
+    if k == 0:
+        # every polygon of the large grid against the independent reference (more than 2**16 cells)
+        from harness import geomref
+        ref = geomref.check(ctx, ds, cv)
+        centres = cv.face_centres
+        ctx.check(all(ref[n].contains(__import__('shapely').Point(*centres[n])) for n in (0, 1, 4095, 4096, 16384, 65535, 65536, 65537, ny * nx - 1)),
+                  'face centre n belongs to cell n')
+        # a mesh with faces of nine and twelve nodes, and a node shared by nine faces
+        from emsarray.conventions.ugrid import UGrid
+        for mesh in ('nonagon', 'fan9', 'poly34567'):
+            md = pipeline.builders.ugrid(mesh, fill='nan' if mesh != 'fan9' else 'none')
+            mc = UGrid(md)
+            geomref.check(ctx, md, mc)
+            import shapely as _sh
+            for n, poly in enumerate(mc.polygons):
+                item = mc.get_index_for_point(poly.representative_point())
+                ctx.check(item is not None and int(item.linear_index) == n, 'a point lookup that hits position n reports cell n (linear index, native index, polygon)')
     for dt in (numpy.int16, numpy.int32, numpy.uint16, numpy.int64):
         idx = (dt(j), dt(i))
         n = cv.ravel_index(idx)
@@ -257,7 +274,7 @@ def cases(tier):
         yield Case(f'{conv}:{shape[0]}x{shape[1]}:{bounds}:vars:plain:datafirst', body,
                    dict(conv=conv, shape=shape, bounds=bounds, as_coords=False, layout='plain', nan_cells=(), data_first=True),
                    patches=P, max_paths=500)
-    yield Case('cf1d:200x300:narrow-integer-indexes', body_large, dict(), max_paths=10)
+    yield Case('cf1d:257x258:narrow-integer-indexes', body_large, dict(), max_paths=10)
     # coordinate variables named by the caller
     for conv, shape, bounds in (('cf1d', (2, 3), 'none'), ('cf2d', (3, 2), 'stored')):
         yield Case(f'{conv}:{shape[0]}x{shape[1]}:{bounds}:vars:plain:explicit-names', body,
